@@ -169,7 +169,12 @@ func (r *Reconciler) Reconcile(ctx context.Context, request reconcile.Request) (
 	conditions.UpdateExtendedDaemonSetReplicaSetStatusCondition(newStatus, now, datadoghqv1alpha1.ConditionTypeLastFullSync, corev1.ConditionTrue, "", "full sync", true, true)
 
 	reqLogger.V(1).Info("Updating ExtendedDaemonSetReplicaSet status")
-	err = r.updateReplicaSet(replicaSetInstance, newStatus)
+	// Report the errors of the pod operations as well as a failure of the status update: returning only the latter
+	// made a sync whose pod creations or deletions failed look successful to the caller.
+	if updateErr := r.updateReplicaSet(replicaSetInstance, newStatus); updateErr != nil {
+		errs = append(errs, updateErr)
+	}
+	err = utilserrors.NewAggregate(errs)
 
 	// Garbage collect the failedPodsBackOff map once per minute,
 	// i.e. whenever the seconds [0,59] is less than the reconcile frequency
